@@ -71,8 +71,9 @@ func terminating(sc *Scenario) {
 // maxInvocations bounds the function invocations one execution through a stack
 // can make (the product of the attempts every retry and hedge layer allows), so
 // that a run stays far below the scheduler's step and task caps and hitting
-// those caps keeps meaning "the code under test does not terminate".
-const maxInvocations = 256
+// those caps keeps meaning "the code under test does not terminate". The bound
+// is on the sum over the executions of a scenario.
+const maxInvocations = 320
 
 func invocationBound(sc *Scenario, st []int) int {
 	n := 1
@@ -96,41 +97,50 @@ func invocationBound(sc *Scenario, st []int) int {
 }
 
 func boundAttempts(sc *Scenario) {
-	for _, st := range sc.Stacks {
-		for invocationBound(sc, st) > maxInvocations {
-			// lower the largest budget in the stack by one
-			best := -1
-			for _, pi := range st {
-				p := &sc.Policies[pi]
-				v := 0
-				switch p.Kind {
-				case KRetry:
-					v = p.MaxRetries
-				case KHedge:
-					v = p.MaxHedges
-				}
-				if v > 0 && (best < 0 || v > budgetOf(&sc.Policies[best])) {
-					best = pi
+	total := func() int {
+		n := 0
+		for _, c := range sc.Clients {
+			for _, op := range c.Ops {
+				if op.Kind == "exec" && op.Stack < len(sc.Stacks) {
+					n += invocationBound(sc, sc.Stacks[op.Stack])
 				}
 			}
-			if best < 0 {
-				break
+		}
+		for _, st := range sc.Stacks {
+			if b := invocationBound(sc, st); b > n {
+				n = b // scenarios whose clients are filled in later
 			}
-			p := &sc.Policies[best]
-			if p.Kind == KRetry {
-				p.MaxRetries--
-			} else {
-				p.MaxHedges--
+		}
+		return n
+	}
+	for total() > maxInvocations {
+		// lower the largest budget by one
+		best := -1
+		for pi := range sc.Policies {
+			if v := budgetOf(&sc.Policies[pi]); v > 0 && (best < 0 || v > budgetOf(&sc.Policies[best])) {
+				best = pi
 			}
+		}
+		if best < 0 {
+			break
+		}
+		p := &sc.Policies[best]
+		if p.Kind == KRetry {
+			p.MaxRetries--
+		} else {
+			p.MaxHedges--
 		}
 	}
 }
 
 func budgetOf(p *PolicySpec) int {
-	if p.Kind == KRetry {
+	switch p.Kind {
+	case KRetry:
 		return p.MaxRetries
+	case KHedge:
+		return p.MaxHedges
 	}
-	return p.MaxHedges
+	return 0
 }
 
 // terminates is the generic premise every generated scenario satisfies;
